@@ -73,6 +73,9 @@ func setupTLSConfig(sslOpts *SslOptions) (*tls.Config, error) {
 	if sslOpts.CaPath != "" {
 		if tlsConfig.RootCAs == nil {
 			tlsConfig.RootCAs = x509.NewCertPool()
+		} else {
+			// the pool is still the one of the caller's tls.Config: add the CA certs to a copy
+			tlsConfig.RootCAs = tlsConfig.RootCAs.Clone()
 		}
 
 		pem, err := ioutil.ReadFile(sslOpts.CaPath)
